@@ -81,8 +81,8 @@ def set(self, key, value, expire=None, read=False, tag=None, retry=False):
         rows = sql(__Hq_select__, (db_key, raw)).fetchall()
         if rows:
             ((rowid, old_filename),) = rows
-            cleanup(old_filename)
             self._row_update(rowid, now, columns)
+            cleanup(old_filename)
         else:
             self._row_insert(db_key, raw, now, columns)
         self._cull(now, sql, cleanup)
@@ -165,8 +165,8 @@ def add(self, key, value, expire=None, read=False, tag=None, retry=False):
             if __Hg_live__:
                 cleanup(filename)
                 return False
-            cleanup(old_filename)
             self._row_update(rowid, now, columns)
+            cleanup(old_filename)
         else:
             self._row_insert(db_key, raw, now, columns)
         self._cull(now, sql, cleanup)
@@ -707,7 +707,8 @@ def emit(ctx):
         err(g, '_remove_after_transaction: the test is not `self._txn_id == threading.get_ident()`', fname)
     out.append('(* file removals are deferred: a call nested in a transaction of its thread hands the files it releases (cleanup lists, the\n'
                '   file of a popped / pulled value) to the outermost transaction, which removes them after its COMMIT; files stored inside a\n'
-               '   transaction that is rolled back are removed after the ROLLBACK (template of _transact / _remove_after_transaction) *)\n'
+               '   transaction that is rolled back are removed after the ROLLBACK; set / add announce the removal of the old file only after the\n'
+               '   row has been rewritten (templates of _transact / _remove_after_transaction / set / add) *)\n'
                'Definition transact_defers_removals : bool := true.\n\n')
 
     # ---- row insert/update
